@@ -94,9 +94,26 @@ EncodeCases ==
     { [neg |-> s, mag |-> [i \in 1..k |-> f] \o top] :
           s \in BOOLEAN, k \in Lens, f \in Fills, top \in {t \in Tops : t[Len(t)] # 0} }
 
+\* Implementation layer (not the protocol): what btcd's BigToCompact is seen to
+\* return.  It shifts the signed number right arithmetically, which rounds a
+\* negative number away from zero, so for a negative input with non-zero bytes
+\* below the mantissa window the mantissa is one too large -- and when that
+\* carries to 2^24 the carry is OR-ed into the exponent byte and the mantissa
+\* is zero.  Recorded here so that the binder can tell this known deviation
+\* (known-findings.json) from any other wrong answer on the same inputs.
+BigToCompactAsCoded(x) ==
+    LET n       == Len(x.mag)
+        dropped == n > 3 /\ \E i \in 1..(n - 3) : x.mag[i] # 0
+    IN  IF ~(x.neg /\ dropped) THEN BigToCompact(x)
+        ELSE LET m0 == ToInt(SubSeq(x.mag, n - 2, n)) + 1
+             IN  IF m0 = 2 * TwoP23 THEN << IF n % 2 = 0 THEN n + 1 ELSE n, 1, 0 >>
+                 ELSE IF m0 >= TwoP23 THEN <<n + 1, 1, m0 \div 256>>
+                 ELSE <<n, 1, m0>>
+
 EncodeExpect(x) ==
-    LET b == BigToCompact([neg |-> x.neg /\ Len(x.mag) > 0, mag |-> x.mag])
-    IN  [ bits |-> b, back |-> CompactToBig(b) ]
+    LET y == [neg |-> x.neg /\ Len(x.mag) > 0, mag |-> x.mag]
+        b == BigToCompact(y)
+    IN  [ bits |-> b, back |-> CompactToBig(b), coded |-> BigToCompactAsCoded(y) ]
 
 EncodeLaws ==
     case.kind = "encode" =>
@@ -143,7 +160,8 @@ PowLimits == [ main |-> Ones(28), reg |-> Ones(31) \o <<127>>, full |-> Ones(32)
                tight |-> Zeros(29) \o <<255, 255>> ]
 PowExpect(r) ==
     [ inRange |-> TargetInRange(r.bits, PowLimits[r.limit]),
-      ok      |-> PowOK(r.hash, r.bits, PowLimits[r.limit]) ]
+      ok      |-> PowOK(r.hash, r.bits, PowLimits[r.limit]),
+      limit   |-> PowLimits[r.limit], hashBig |-> HashToBig(r.hash) ]
 
 -----------------------------------------------------------------------------
 (* subsidy *)
@@ -280,7 +298,7 @@ RealExpect(s) ==
         c   == ScenChain(s)
         req == Required(c, s.newT, n)
         alt == Succ(req)
-    IN  [ mtp |-> MTP(c), req |-> req, tipHeight |-> TipHeight(c), tipTime |-> Tip(c).time,
+    IN  [ mtp |-> MTP(c), req |-> req, tipHeight |-> TipHeight(c), tipTime |-> Tip(c).time, now |-> n.now,
           probes |-> { [t |-> s.newT, b |-> b, viol |-> Violations(c, s.newT, b, n.now, n)]
                          : b \in {req, alt, n.limitBits, Tip(c).bits} } ]
 RealLaws ==
